@@ -9,6 +9,7 @@ ASSUMPTIONS = [
     "valid_utf8_len, TrieNode packing, token_len. 'Any grammar text / schema / regex however malformed', resource limits, sticky failure and "
     "hangs are whole-program behaviour with input-dependent loops and are NOT decided",
     "Kani dev-profile semantics: arithmetic overflow is a failed check (in release builds it would wrap silently)",
+    "protocol layers (E1c whole-function slices of the current tokenparser.rs / matcher.rs over stub collaborators, shared with C18): a token id outside the vocabulary, a stopped engine and a failed Matcher keep reporting the failure on every later call and never reach the parser again; no assert!/unwrap/index panic of the sliced functions is reachable for any stub answer",
     "bounds: lcm exponents <= 2 and one coefficient <= 12 (recursion depth of gcd64), gcd64 on 10-bit operands, valid_utf8_len on buffers <= 6 bytes, f64 bounds in [-1e6, 1e6]",
 ]
 
@@ -18,14 +19,18 @@ def run():
     out = E1Outcome()
     t = tier()
     specs = pp.specs("numeric", "c20", "c20_fail") + pp.specs("numeric", "c08") + pp.specs("stop", "c20") + pp.specs("parser", "c20") + pp.specs("grammar", "c05", "c05_fail")
+    # sticky failure and freedom from panics in the protocol layers (E1c function slices, shared with C18)
+    specs += [x for x in pp.specs("tpproto", "c18") if "out_of_range" in x["name"] or "stopped_is_final" in x["name"]]
+    specs += [x for x in pp.specs("mproto", "c18") if "error_is_sticky" in x["name"]]
     if t == "quick":
         drop = ("c08_decimal_lcm_small", "bitcount_le_lt", "bitcount_ge_gt", "c20_gcd")
         specs = [s for s in specs if not any(d in s["name"] for d in drop)]
-    info = run_parser_groups("C20", "c20", ["numeric", "stop", "parser", "grammar"], specs, out, harness_timeout_s=900)
+    info = run_parser_groups("C20", "c20", ["numeric", "stop", "parser", "grammar", "tpproto", "mproto"], specs, out, harness_timeout_s=900, mem_gb=40)
     info2, _ = run_toktrie_groups("C20", "c20t", {"toklen"}, out, tokenv=False, select=lambda s: "toklen" in s["name"] or "k16_2" in s["name"])
     cov = e1_coverage(out, [dict(harness=s["name"]) for s in specs[:10]],
                       ["json/numeric.rs Decimal::new, Decimal::checked_lcm, gcd64, normalize_integer_bounds", "json/schema.rs NumberSchema::get_minimum/get_maximum",
                        "earley/grammar.rs ParamRef::{new,mask,eval}, ParamExpr::eval, ParamCond::eval", "earley/parser.rs Item::{new,rhs_ptr,start_pos,advance_dot,rewind_dot}",
-                       "stop_controller.rs valid_utf8_len", "toktrie toktree.rs TrieNode packing, token_len"],
+                       "stop_controller.rs valid_utf8_len", "toktrie toktree.rs TrieNode packing, token_len",
+                       "tokenparser.rs TokenParser::{consume_token, compute_mask_inner, validate_*, rollback, stop, check_initialized} and matcher.rs Matcher::{with_inner, ...} (whole-function slices)"],
                       dict(see="assumptions"), dict(tier=t, stubs=["alloc::fmt::format (only in harnesses that declare it)"], kani_wall_s=info.get("kani_wall_s", 0) + info2.get("kani_wall_s", 0)))
     return finish("C20", out, tm, "model_checking", cov, ASSUMPTIONS)
